@@ -130,7 +130,14 @@ class Ctx:
             if k['kind'] == 'finding' and sig_match(k['signature'], signature):
                 self.known_hit.setdefault(k['id'], dict(entry=k, n=0, example=data))['n'] += 1
                 return 'known'
-XX
+        key = json.dumps(signature, sort_keys=True, default=str)
+        for f in self.failures:
+            if f['key'] == key:
+                f['n'] += 1
+                return 'new'
+        if len(self.failures) < 20:
+            self.failures.append(dict(key=key, n=1, signature=signature, what=what, data=data))
+        return 'new'
 
     def budget(self, quick, thorough):
         n = thorough if self.thorough else quick
